@@ -943,23 +943,49 @@ static J handle(const J& cmd)
     }
     if (op == "pair_threads")
     {
-        // C20: run program P in VM a and Q in VM b on two threads started together; return both logs
-        auto run_one = [](VM* vm, std::string sqf, bool pp, J* out, std::atomic<int>* barrier) {
+        // C20: run program P in VM a and Q in VM b on two threads started together; return both logs.
+        // With create=true the two VMs are also constructed inside the threads (concurrent first use of everything).
+        struct Side { int id; std::string sqf, config, ops; bool pp; J out; std::unique_ptr<VM> fresh; VM* vm = nullptr; };
+        bool create = cmd.boolean("create", false);
+        auto run_one = [create](Side* sd, std::atomic<int>* barrier) {
             (*barrier)--; while (barrier->load() > 0) {}
-            J cmd = J::obj(); cmd.set("sqf", sqf).set("pp", pp);
-            bool ok; J rep = J::obj();
-            do_parse_and_load(*vm, cmd, ok, rep);
-            if (ok) { auto res = vm->r->execute(rt::runtime::action::start); rep.set("result", result_name(res)); if (res != rt::runtime::result::ok && res != rt::runtime::result::empty) vm->r->execute(rt::runtime::action::abort); }
-            rep.set("ok", ok).set("logs", vm->logger.take());
-            *out = rep;
+            if (create)
+            {
+                sd->fresh = std::make_unique<VM>();
+                J c = J::obj(); c.set("ops", sd->ops);
+                setup_vm(*sd->fresh, c);
+                sd->vm = sd->fresh.get();
+            }
+            VM* vm = sd->vm;
+            J rep = J::obj();
+            bool ok = true;
+            if (!sd->config.empty())
+            {
+                rt::fileio::pathinfo pinfo{ std::string("config.cpp"), std::string("") };
+                ok = vm->r->parser_config().parse(vm->r->confighost(), sd->config, pinfo);
+                rep.set("config_ok", ok);
+            }
+            J c = J::obj(); c.set("sqf", sd->sqf).set("pp", sd->pp);
+            bool okp = false;
+            do_parse_and_load(*vm, c, okp, rep);
+            if (okp) { auto res = vm->r->execute(rt::runtime::action::start); rep.set("result", result_name(res)); if (res != rt::runtime::result::ok && res != rt::runtime::result::empty) vm->r->execute(rt::runtime::action::abort); }
+            rep.set("ok", okp).set("logs", vm->logger.take());
+            sd->out = rep;
         };
-        int a = (int)cmd.inum("a", 0), b = (int)cmd.inum("b", 1);
-        VM* va = g_vms.at(a).get(); VM* vb = g_vms.at(b).get();
-        J ra, rb; std::atomic<int> barrier{ 2 };
-        std::thread ta(run_one, va, cmd.str("p"), cmd.boolean("pp", false), &ra, &barrier);
-        std::thread tb(run_one, vb, cmd.str("q"), cmd.boolean("pp", false), &rb, &barrier);
+        Side sa, sb;
+        sa.id = (int)cmd.inum("a", 0); sb.id = (int)cmd.inum("b", 1);
+        sa.sqf = cmd.str("p"); sb.sqf = cmd.str("q");
+        sa.config = cmd.str("p_config", ""); sb.config = cmd.str("q_config", "");
+        sa.ops = cmd.str("p_ops", "full"); sb.ops = cmd.str("q_ops", "full");
+        sa.pp = sb.pp = cmd.boolean("pp", false);
+        if (!create) { sa.vm = g_vms.at(sa.id).get(); sb.vm = g_vms.at(sb.id).get(); }
+        else { g_vms.erase(sa.id); g_vms.erase(sb.id); }
+        std::atomic<int> barrier{ 2 };
+        std::thread ta(run_one, &sa, &barrier);
+        std::thread tb(run_one, &sb, &barrier);
         ta.join(); tb.join();
-        reply.set("p", ra).set("q", rb);
+        if (create) { g_vms[sa.id] = std::move(sa.fresh); g_vms[sb.id] = std::move(sb.fresh); }
+        reply.set("p", sa.out).set("q", sb.out);
         return reply;
     }
     throw HarnessError("unknown op " + op);
